@@ -122,14 +122,19 @@ def W_family(n):
             lambda r, c: (1 + 2 * (r % 2)) if r == c else ((2 * r + c) % 3) - 1,
             lambda r, c: 3 if r == c else (2 if c == 0 else 0),
             lambda r, c: 1 if r == c else (-1 if r == n - 1 else 0),
-            lambda r, c: (1 + 2 * (c % 2)) if r == c else (2 if r == c + 1 else 0)]
+            lambda r, c: (1 + 2 * (c % 2)) if r == c else (2 if r == c + 1 else 0),
+            # an equally valid (invertible, lower triangular) factor with negative diagonal entries
+            lambda r, c: (-(1 + (r % 3)) if r % 2 == 0 else 2) if r == c else ((r + 2 * c) % 3) - 1]
     return [[fn(r, c) for r, c in idx] for fn in fams]
 
 
 def W_lattice(n):
     idx = lower_idx(n)
-    choices = [([1, 3] if r == c else [-1, 0, 2]) for r, c in idx]
-    return [list(v) for v in itertools.product(*choices)]
+    choices = [(([1, 3, -2] if n <= 2 else [1, 3]) if r == c else [-1, 0, 2]) for r, c in idx]
+    out = [list(v) for v in itertools.product(*choices)]
+    if n > 2:
+        out += W_family(n)  # includes a factor with negative diagonal entries
+    return out
 
 
 def F_lattice(n, tier):
@@ -608,7 +613,8 @@ def explore_predict_variants(case):
     for n, m_ in ((2, 1), (3, 1), (3, 2), (4, 2), (6, 1), (6, 2)):
         pats = {"diag": [(i, i) for i in range(n)],
                 "block": sorted(set([(i, i) for i in range(n)] + [(i, i - 1) for i in range(1, n, 2)]), key=lambda rc: (rc[1], rc[0])),
-                "first_col": sorted(set([(i, i) for i in range(n)] + [(i, 0) for i in range(n)]), key=lambda rc: (rc[1], rc[0]))}
+                "first_col": sorted(set([(i, i) for i in range(n)] + [(i, 0) for i in range(n)]), key=lambda rc: (rc[1], rc[0])),
+                "full": [(r, c) for c in range(n) for r in range(c, n)]}
         for pname, nzs in pats.items():
             sp = ca.Sparsity.triplet(n, n, [r for r, c in nzs], [c for r, c in nzs])
             try:
@@ -623,16 +629,18 @@ def explore_predict_variants(case):
                 continue
             rows_, cols_ = sp.get_triplet()
             order_ = list(zip(rows_, cols_))
-            for k in range(3):
+            for k in range(5 if pname == "full" else 3):
                 res.count("evaluations")
                 res.nontrivial.add(hash(("wpat", n, m_, pname, k)))
+                # measurement noise many orders of magnitude below / above the state uncertainty (k = 3, 4; full pattern)
+                rscale = {3: 1e-8, 4: 1e6}.get(k, 1.0)
                 Wd = [[0.0] * n for _ in range(n)]
                 for (r, c) in order_:
                     Wd[r][c] = float(1 + ((r + k) % 3)) if r == c else float(((r * 2 + c + k) % 3) - 1) or 0.5
                 Hv = [[float(((i * 3 + j * 2 + k) % 3) - 1) for j in range(n)] for i in range(m_)]
                 if not any(any(r) for r in Hv):
                     Hv[0][0] = 1.0
-                Rv = [[(1.0 + i) if i == j else (0.5 if j < i else 0.0) for j in range(m_)] for i in range(m_)]
+                Rv = [[rscale * ((1.0 + i) if i == j else (0.5 if j < i else 0.0)) for j in range(m_)] for i in range(m_)]
                 Wm, Hm, Rm = Mx(Wd), Mx(Hv), Mx(Rv)
                 P = Wm * Wm.T
                 S = Hm * P * Hm.T + Rm * Rm.T
@@ -665,7 +673,7 @@ def explore_predict_variants(case):
                             bad.append("gain_is_P_Ht_Sinv")
                         if max(abs(x) for x in (Mx(Wpn.tolist()) * Mx(Wpn.tolist()).T - Pp)) > 1e-9 * sc:
                             bad.append("posterior_factor")
-                        if max(abs(x) for x in (Mx(Ssn.tolist()) * Mx(Ssn.tolist()).T - S)) > 1e-9 * sc:
+                        if max(abs(x) for x in (Mx(Ssn.tolist()) * Mx(Ssn.tolist()).T - S)) > 1e-9 * (sc + float(max(abs(x) for x in S))):
                             bad.append("innovation_factor")
                         if np.max(np.abs(np.triu(Wpn, 1))) > 0:
                             bad.append("Wplus_lower_triangular")
